@@ -274,6 +274,70 @@ func (in *rinterp) exec(fr *rframe, s ast.Stmt) rctl {
 		if v.Else != nil {
 			return in.exec(fr, v.Else)
 		}
+	case *ast.SwitchStmt:
+		// expression switch, tagged or tagless, without fallthrough (harmless seed C13-H2 rewrote
+		// if-chains of redialCounter.Next and session.write as switches)
+		if v.Init != nil {
+			if c := in.exec(fr, v.Init); c.k != rcNone {
+				return c
+			}
+		}
+		var tag *rval
+		if v.Tag != nil {
+			t := in.eval(fr, v.Tag)
+			tag = &t
+		}
+		if in.stopped() {
+			return rctl{k: rcStop}
+		}
+		var chosen, def *ast.CaseClause
+	clauses:
+		for _, cl := range v.Body.List {
+			cc, ok := cl.(*ast.CaseClause)
+			if !ok {
+				return in.fail("switch clause %T", cl)
+			}
+			if cc.List == nil {
+				def = cc
+				continue
+			}
+			for _, e := range cc.List {
+				val := in.eval(fr, e)
+				if in.stopped() {
+					return rctl{k: rcStop}
+				}
+				hit := false
+				if tag == nil {
+					if val.k != rvBool {
+						return in.fail("switch case that is not a boolean: %s", val)
+					}
+					hit = val.b
+				} else {
+					hit = rvEqual(*tag, val)
+				}
+				if hit {
+					chosen = cc
+					break clauses
+				}
+			}
+		}
+		if chosen == nil {
+			chosen = def
+		}
+		if chosen != nil {
+			for _, st := range chosen.Body {
+				if br, ok := st.(*ast.BranchStmt); ok && br.Tok == token.FALLTHROUGH {
+					return in.fail("fallthrough in a switch")
+				}
+			}
+			c := in.execList(fr, chosen.Body)
+			if c.k == rcBreak && c.label == "" {
+				return rctl{}
+			}
+			if c.k != rcNone {
+				return c
+			}
+		}
 	case *ast.ForStmt:
 		if v.Init != nil {
 			if c := in.exec(fr, v.Init); c.k != rcNone {
